@@ -85,6 +85,10 @@ func propDelivery(t *rapid.T) {
 		opts.Fallback = gen.ProcessFallback{Enable: true, Name: "nobody", Tag: "tag-recv"}
 	}
 	selfInit := rapid.IntRange(0, 3).Draw(t, "self_sends_in_init")
+	selfInitPrio := make([]int, selfInit)
+	for k := range selfInitPrio {
+		selfInitPrio[k] = rapid.IntRange(0, 2).Draw(t, "self_send_prio")
+	}
 	var mu sync.Mutex
 	okSet := map[item]sendPlan{}
 	errSet := map[item]error{}
@@ -93,10 +97,18 @@ func propDelivery(t *rapid.T) {
 			for k := 0; k < selfInit; k++ {
 				m := item{-1, k}
 				var err error
-				if k%2 == 0 {
-					err = a.Send(a.PID(), m)
-				} else {
-					err = a.Send(gen.Atom("recv"), m)
+				var to any = a.PID()
+				if k%2 == 1 {
+					to = gen.Atom("recv")
+				}
+				// every mailbox class must be looked at when Init is over, not only the main queue
+				switch selfInitPrio[k] {
+				case 0:
+					err = a.Send(to, m)
+				case 1:
+					err = a.SendWithPriority(to, m, gen.MessagePriorityHigh)
+				default:
+					err = a.SendWithPriority(to, m, gen.MessagePriorityMax)
 				}
 				mu.Lock()
 				if err == nil {
@@ -333,6 +345,9 @@ func propDelivery(t *rapid.T) {
 		}
 		if mbox == 0 {
 			t.Fatalf("item %v to a live unbounded receiver was refused: %v", m, e)
+		}
+		if fbMode == 1 && errors.Is(e, gen.ErrProcessMailboxFull) && (m.Sender == -1 || plans[m.Sender][m.N].Kind == 0) {
+			t.Fatalf("message %v was refused (%v) although a live fallback process with an unbounded mailbox is configured: it belongs to the fallback", m, e)
 		}
 		if m.Sender == -1 && int64(m.N) < mbox {
 			t.Fatalf("self-send %v during init was refused (%v) although the mailbox (size %d) had room", m, e, mbox)
